@@ -155,6 +155,16 @@ func replayNative(p *Program, file string) replayOutcome {
 		return replayOutcome{false, "no data race observed natively"}
 	}
 	res, out, err := runNative(p, pkg, []replayCase{rc}, 120*time.Second)
+	if err != nil && strings.Contains(out, "panic: ") && strings.Contains(out, "goroutine ") {
+		// the native test process died of a panic outside the harness
+		// goroutine (for example a send on a closed channel in a goroutine
+		// of the code under test): that is a crash
+		line := out[strings.Index(out, "panic: "):]
+		if i := strings.IndexByte(line, '\n'); i > 0 {
+			line = line[:i]
+		}
+		return replayOutcome{true, "native process crashed: " + line}
+	}
 	if err != nil {
 		tail := out
 		if len(tail) > 1500 {
